@@ -15,7 +15,7 @@ for d in sorted(glob.glob(os.path.join(VERIF, "seeded", "C[0-9][0-9]-*"))):
     for c, r in m.get("checks", {}).items():
         if r["exit"] == 1:
             key = next((l.split("key:")[1].strip() for l in r["lines"] if "key:" in l), "")
-            det.append("%s (%s)" % (c, key))
+            det.append("%s (%s)%s" % (c, key, ", thorough tier" if m.get("tier") == "thorough" else ""))
     print("| %s | %s | %s | %s | %s |" % (m["seed"], m["breaks_property"], m.get("needs_to_manifest", ""), first, "; ".join(det) or "**MISSED**"))
 hp = os.path.join(VERIF, "seeded", "handmade.json")
 if os.path.exists(hp):
